@@ -161,7 +161,7 @@ def signature(func, variadic=True, markup=True, safe=False):
 
 
 import sys
-def isvalid(func, *args, **kwds):
+def isvalid(func, /, *args, **kwds):
     """check if func(*args,**kwds) is a valid call for function 'func'
 
     returns True if valid, returns False if an error is thrown"""
@@ -179,7 +179,7 @@ def isvalid(func, *args, **kwds):
             except: pass
         return False
 
-def validate(func, *args, **kwds):
+def validate(func, /, *args, **kwds):
     """validate a function's arguments and keywords against the call signature
 
     Raises an exception when args and kwds do not match the call signature.
@@ -228,7 +228,7 @@ def validate(func, *args, **kwds):
         pass
     raise error
 
-def _validate(func, *args, **kwds):
+def _validate(func, /, *args, **kwds):
     """validate with klepto's own reading of the call signature of func"""
     named, defaults, hasargs, haskwds = signature(func)
 
